@@ -68,6 +68,9 @@ type Options struct {
 	SnapshotsBufferLen   uint32       // default 10000
 	MaxSnapshots         uint32       // default 3
 	DB                   *memorydb.DB // reuse an existing database (reopen); default a new one
+	// WrapDB, when set, decorates the database handed to the trie storage manager (fault / delay
+	// injection, see FaultDB); Env.DB stays the underlying memorydb
+	WrapDB func(db data.DBWriteCacher) data.DBWriteCacher
 }
 
 // Env is one real accounts database with everything under it
@@ -105,9 +108,13 @@ func NewEnv(o Options) (*Env, error) {
 		e.DB = memorydb.New()
 	}
 	var err error
+	var tsmDB data.DBWriteCacher = e.DB
+	if o.WrapDB != nil {
+		tsmDB = o.WrapDB(e.DB)
+	}
 	if o.Pruning {
 		e.TSM, err = trie.NewTrieStorageManager(trie.NewTrieStorageManagerArgs{
-			DB: e.DB, Marshalizer: e.Marsh, Hasher: e.Hasher,
+			DB: tsmDB, Marshalizer: e.Marsh, Hasher: e.Hasher,
 			SnapshotDbConfig:       config.DBConfig{FilePath: "/nonexistent/verif-snap", Type: "MemoryDB"},
 			GeneralConfig:          config.TrieStorageManagerConfig{PruningBufferLen: o.PruningBufferLen, SnapshotsBufferLen: o.SnapshotsBufferLen, MaxSnapshots: o.MaxSnapshots},
 			CheckpointHashesHolder: hashesHolder.NewCheckpointHashesHolder(10000000, 32),
@@ -125,7 +132,7 @@ func NewEnv(o Options) (*Env, error) {
 			return nil, err
 		}
 	} else {
-		e.TSM, err = trie.NewTrieStorageManagerWithoutPruning(e.DB)
+		e.TSM, err = trie.NewTrieStorageManagerWithoutPruning(tsmDB)
 		if err != nil {
 			return nil, err
 		}
